@@ -169,6 +169,67 @@ func reflectModels() map[string]modelFn {
 		}
 		return RV{T: t, V: ex.zero(t)}
 	}
+	m["reflect.MakeMap"] = func(ex *Exec, a []Val) Val {
+		t := ex.argRT(a[0], "reflect.MakeMap")
+		mt, ok := t.Underlying().(*types.Map)
+		if t == nil || !ok {
+			ex.rpanic("reflect.MakeMapWithSize of non-map type")
+		}
+		return RV{T: t, V: &MapObj{KT: mt.Key(), VT: mt.Elem()}}
+	}
+	m["reflect.MakeMapWithSize"] = m["reflect.MakeMap"]
+	m["reflect.MakeSlice"] = func(ex *Exec, a []Val) Val {
+		t := ex.argRT(a[0], "reflect.MakeSlice")
+		st, ok := t.Underlying().(*types.Slice)
+		if t == nil || !ok {
+			ex.rpanic("reflect.MakeSlice of non-slice type")
+		}
+		n, c := ex.concInt(a[1], "reflect.MakeSlice len"), ex.concInt(a[2], "reflect.MakeSlice cap")
+		if n < 0 {
+			ex.rpanic("reflect.MakeSlice: negative len")
+		}
+		if c < 0 {
+			ex.rpanic("reflect.MakeSlice: negative cap")
+		}
+		if n > c {
+			ex.rpanic("reflect.MakeSlice: len > cap")
+		}
+		if c > 1<<16 {
+			unsupported("reflect.MakeSlice of more than 65536 elements")
+		}
+		arr := make([]Val, c)
+		for i := range arr {
+			arr[i] = ex.zero(st.Elem())
+		}
+		return RV{T: t, V: Slice{A: &arr, Len: n, Cap: c}}
+	}
+	for _, name := range []string{"reflect.PointerTo", "reflect.PtrTo"} {
+		name := name
+		m[name] = func(ex *Exec, a []Val) Val {
+			t := ex.argRT(a[0], name)
+			if t == nil {
+				ex.gopanic("nil-deref", "invalid memory address or nil pointer dereference ("+name+" of nil Type)")
+			}
+			return ex.rtypeVal(types.NewPointer(t))
+		}
+	}
+	m["reflect.SliceOf"] = func(ex *Exec, a []Val) Val {
+		t := ex.argRT(a[0], "reflect.SliceOf")
+		if t == nil {
+			ex.gopanic("nil-deref", "invalid memory address or nil pointer dereference (reflect.SliceOf of nil Type)")
+		}
+		return ex.rtypeVal(types.NewSlice(t))
+	}
+	m["reflect.MapOf"] = func(ex *Exec, a []Val) Val {
+		k, e := ex.argRT(a[0], "reflect.MapOf"), ex.argRT(a[1], "reflect.MapOf")
+		if k == nil || e == nil {
+			ex.gopanic("nil-deref", "invalid memory address or nil pointer dereference (reflect.MapOf of nil Type)")
+		}
+		if !types.Comparable(k) {
+			ex.rpanic("reflect.MapOf: invalid key type " + typeString(k))
+		}
+		return ex.rtypeVal(types.NewMap(k, e))
+	}
 	m["reflect.Append"] = func(ex *Exec, a []Val) Val {
 		s := a[0].(RV)
 		if s.kind() != kSlice {
